@@ -19,7 +19,7 @@ CLAIMED = {
             "the stated lengths over arbitrary bytes is executed, z3 decides branch feasibility and every obligation (decomposition laws, memory safety, "
             "libstdc++ preconditions); prettyNumber/prettyDouble thresholds by SMT over exact reals (ll2smt); counterexamples replayed under ASan/UBSan.",
             "DESIGN.md 3/C18",
-            "string lengths 0..4 (quick) / 0..6 (thorough), FileName 1..4 / 1..6; PseudoURL: 0-2 letter type, 1-2 character file, two pairs; argument vectors of <= 5; "
+            "string lengths 0..5 (quick) / 0..7 (thorough), FileName 1..5 / 1..6; PseudoURL: 0-2 letter type, 1-2 character file, two pairs; argument vectors of <= 5; "
             "split(input,char) via getline, canonical()/homeFolder() and printed decimal digits are outside; exceeding a path/step/time limit is reported inconclusive",
             "symbolic execution of LLVM IR with z3 (vp/llpath.py) + SMT (ll2smt), native sanitizer replay"),
     "C16": ("model_checking",
@@ -155,7 +155,7 @@ CLAIMED = {
             "with a symbolic key from an arbitrary valid state of N entries with symbolic distinct keys and values, compared with an insertion-ordered reference map incl. iteration and at_index order - an "
             "inductive step covering histories of any length within the size bound; ParameterizedObject scenarios with symbolic values (exact/wrong-type reads, default, query flag, reset, type change, removal).",
             "DESIGN.md 3/C10",
-            "state size N <= 4 (quick) / 5 (thorough); int keys/values (all 2^32 each); ParameterizedObject: three fixed scenarios with names 'a','b'; allocation never fails",
+            "state size N <= 5; int keys/values (all 2^32 each); ParameterizedObject: three fixed scenarios with names 'a','b'; allocation never fails",
             "symbolic execution of LLVM IR with z3 (vp/llpath.py), inductive one-step harness with reference model, native sanitizer replay"),
     "C14": ("model_checking",
             "cbmc bounded model checking of aligned_allocator<T,64>::allocate/deallocate for every 64-bit element count (n=0, length_error beyond max_size without an allocation call, exact "
